@@ -98,6 +98,9 @@ def gen_sched(rng, event: str, rep_ts: int, run, big: bool):
         start = rng.randrange(0, max(1, a0 + 1))
     if start < 0 and rng.random() < .9:
         start = start % interval
+    # H: event ids fit the 32-bit emsg / splice_event_id fields (ledger D13j is the excluded case)
+    if (b_last - start) // interval >= 2 ** 32 - 2:
+        start = a0 - interval * rng.randrange(0, 1000) + rng.choice([0, 0, 1, -1])
     # count: unbounded / cut inside the run / cut before / after
     k = rng.random()
     first = max(0, -(-(a0 - start) // interval))
